@@ -26,7 +26,7 @@ CHECKS['C11'] = {
 
 CHECKS['C15'] = {
     'technique': 'static analysis: who-may-call rule from the shell-input call-graph closure into a table of panicking http_types entry points, edge-dominance rule for status classification, provenance of pass-through errors, error-edge discipline of decoders, header-write ordering rule',
-    'text': 'Static rule instances over the MIR of crux_http (default + all-features): the call-graph closure of the shell-input path contains no tabled panicking constructor or unwrap, Response::new classifies exactly on the client/server error edges and copies status/headers/body, shell errors pass through unmodified in both APIs, decoders return every failure as an error, and only the shell\'s headers are written, each appended (never inserted over an earlier value). Two genuine panics on unusual statuses/headers are recorded as known findings. Decoder conformance is trusted.',
+    'text': 'Static rule instances over the MIR of crux_http (default + all-features): the call-graph closure of the shell-input path contains no tabled panicking constructor or unwrap, Response::new classifies exactly on the client/server error edges and copies status/headers/body, shell errors pass through unmodified in both APIs, decoders return every failure as an error, and only the shell\'s headers are written, each appended (never inserted over an earlier value), and a repeated header is read by its last value or whole, never through Deref to the first. Two genuine panics on unusual statuses/headers are recorded as known findings. Decoder conformance is trusted.',
     'design_ref': 'DESIGN.md §4 C15',
 }
 CHECKS['C16'] = {
@@ -37,7 +37,7 @@ CHECKS['C16'] = {
 
 CHECKS['C14'] = {
     'technique': 'static analysis: field-provenance table for the HttpRequest conversion with a three-valued guard evaluation, single-conversion who-may-construct rule, one-emission-per-endpoint path rule, sibling diff of the two request builders',
-    'text': 'Static rule instances over the MIR of crux_http: each field of the emitted HttpRequest has its tabled source (all names, all values, body read unless known empty), one conversion serves both APIs, each endpoint emits one effect outside any loop, and the builder methods of both APIs resolve to the same callees. Necessary conditions over all requests; URL/query/body encoding inside url and http_types is trusted.',
+    'text': 'Static rule instances over the MIR of crux_http: each field of the emitted HttpRequest has its tabled source (all names, all values, body read unless known empty), one conversion serves both APIs, each endpoint emits one effect outside any loop, and the builder methods of both APIs resolve to the same callees. Necessary conditions over all requests; URL/query/body encoding inside url and http_types is trusted. Every mutating method of crux_http::Request forwards to its same-named http_types method on every non-error path.',
     'design_ref': 'DESIGN.md §4 C14',
 }
 
@@ -92,30 +92,30 @@ CHECKS['C09'] = {
     'design_ref': 'DESIGN.md §4 C09',
 }
 CHECKS['C12'] = {
-    'technique': 'static analysis: error-discipline rule over every fallible call of the boundary modules, edge-dominance rule (rejected before the core is touched), frozen table of explicit panics, bounded-slice reader rule',
-    'text': 'Static rule instances over the MIR of crux_core::bridge: every BridgeError/erased_serde/ResolveError/bincode result is propagated to the error return (never unwrapped, asserted or discarded); the core is entered only with the Ok payload of the deserialisation and only after resume returned Ok; every explicit panic in the boundary modules is a row of a frozen table (poisoning, id overflow, a proven unreachable, and the documented out-of-domain id panic); deserialisers read from a bounded slice. Necessary conditions for every byte string; user Deserialize impls and serde_json are outside the rules.',
+    'technique': 'static analysis: error-discipline rule over every fallible call of the boundary modules, edge-dominance rule (rejected before the core is touched), frozen table of explicit panics, bounded-slice reader rule, wire-type neutrality table shared with C10',
+    'text': 'Static rule instances over the MIR of crux_core::bridge: every BridgeError/erased_serde/ResolveError/bincode result is propagated to the error return (never unwrapped, asserted or discarded); the core is entered only with the Ok payload of the deserialisation and only after resume returned Ok; every explicit panic in the boundary modules is a row of a frozen table (poisoning, id overflow, a proven unreachable, and the documented out-of-domain id panic); deserialisers read from a bounded slice. Necessary conditions for every byte string; user Deserialize impls and serde_json are outside the rules. Every type decoded from shell input derives its serde impls and carries only wire-neutral attributes, so no conversion code of crux\'s own runs (and can panic) while decoding.',
     'design_ref': 'DESIGN.md §4 C12',
 }
 CHECKS['C13'] = {
     'technique': 'static analysis: insert/release pairing table over the long-lived containers (path rules, a typestate rule for the bridge registry, an unconditional-insert rule), field-order rule on Core, container inventory, queue-implementation table over the channel-typed fields',
-    'text': 'Static rule instances over MIR and HIR tables of the runtime crates: the executor frees a finished task\'s slot on every path and re-stores a pending future; the command slab releases Completed/Cancelled tasks (shared with C07); the bridge registry is analysed as a typestate and two of its three states (Never, Many) have no guaranteed release — recorded known findings, as is the unconditional insert into the cleared-timer set; Core drops user types before the executor; no long-lived container exists outside the pairing table; every queue endpoint held by a runtime type is a tabled channel implementation whose backlog is dropped with the receiving side. Timely release for every program is not decided.',
+    'text': 'Static rule instances over MIR and HIR tables of the runtime crates: the executor frees a finished task\'s slot on every path and re-stores a pending future; the command slab releases Completed/Cancelled tasks (shared with C07); the bridge registry is analysed as a typestate and two of its three states (Never, Many) have no guaranteed release — recorded known findings, as is the unconditional insert into the cleared-timer set; Core drops user types before the executor; no long-lived container exists outside the pairing table; Command::then consumes each operand in the call that hosts it; every queue endpoint held by a runtime type is a tabled channel implementation whose backlog is dropped with the receiving side. Timely release for every program is not decided.',
     'design_ref': 'DESIGN.md §4 C13',
 }
 
 CHECKS['C17'] = {
     'technique': 'static analysis: sibling table over the five operations x {capability API, command API} x un-wrapper, pass-through provenance of every field and of the awaited answer through the public capability methods, shape rule for the Value <-> Option conversions',
-    'text': 'Static rule instances over the MIR of crux_kv: each of the 10 API functions builds exactly its own operation from its like-named parameters (through at most into()), issues one request outside any loop and hands the result to its own un-wrapper; each un-wrapper builds its Ok value only from the fields of its own response kind and returns the shell\'s error; each of the 10 public capability methods asks the shell exactly once on every path with its like-named arguments and hands back exactly the awaited answer; the Value conversions are pure re-taggings with the bytes moved. These shape rules cover every input because no field is computed; encoding across the bridge is C10.',
+    'text': 'Static rule instances over the MIR of crux_kv: each of the 10 API functions builds exactly its own operation from its like-named parameters (through at most into()), issues one request outside any loop and hands the result to its own un-wrapper; each un-wrapper builds its Ok value only from the fields of its own response kind and returns the shell\'s error; each of the 10 public capability methods asks the shell exactly once on every path with its like-named arguments and hands back exactly the awaited answer, and each API function returns the result of its un-wrapper as it is; the Value conversions are pure re-taggings with the bytes moved. These shape rules cover every input because no field is computed; encoding across the bridge is C10.',
     'design_ref': 'DESIGN.md §4 C17',
 }
 CHECKS['C18'] = {
     'technique': 'static analysis: single-counter and one-id-per-timer provenance rule, dominance rule for the early-clear check over every poll, provenance rule for the Clear request, sibling diff of notify_at / notify_after, same-static rule for the legacy cleared set, compile-fail witnesses (thorough)',
-    'text': 'Static rule instances over the MIR of crux_time: the id counter is a static touched only by one fetch_add; each of the four timer-starting functions takes exactly one id, which is the id of the request, the handle / TimerFuture and the response comparisons; no future is polled (so nothing is sent) before the early-clear check; the Clear request carries the id received on the clear channel and is awaited before Cleared is reported; the two task bodies agree up to the variant; legacy clear() and TimerFuture::poll use one process-wide cleared set. The thorough tier adds rustc witnesses that clear() consumes the handle and the handle is not Clone. Interleavings of fire / clear / drop / late answers are not decided.',
+    'text': 'Static rule instances over the MIR of crux_time: the id counter is a static touched only by one fetch_add; each of the four timer-starting functions takes exactly one id, which is the id of the request, the handle / TimerFuture and the response comparisons; no future is polled (so nothing is sent) before the early-clear check; the Clear request carries the id received on the clear channel and is awaited before Cleared is reported; the two task bodies agree up to the variant; legacy clear() and TimerFuture::poll use one process-wide cleared set; TimerHandle::clear cannot panic (a late clear is a no-op). The thorough tier adds rustc witnesses that clear() consumes the handle and the handle is not Clone. Interleavings of fire / clear / drop / late answers are not decided.',
     'design_ref': 'DESIGN.md §4 C18',
 }
 
 CHECKS['C20'] = {
     'technique': 'static analysis: ids-are-only-compared dataflow rule with a no-ordering impl table, position-provenance rule for every Indexed, sort-before-use rule on aggregated tuples, ordered-output type rule, full-scan rule for the synthetic Range container, vendored-table agreement (thorough)',
-    'text': 'Static rule instances over the MIR and HIR tables of crux_cli::codegen: rustdoc ids are only compared for equality or hashed and the node types have no ordering (invariance under renumbering for code of this shape); every Indexed index is the position in the declared, non-skipped member list; every helper sorts its aggregated tuples or keys them by index; outputs are BTreeMaps; the synthetic Range container is derived from a full scan of the field relation (one structural part of closedness); the thorough tier compares the vendored rename-rule table and Format declarations with the pinned serde_derive / serde-reflection sources as parsed tables. NOT decided: closedness in general (input dependent), agreement with serde-reflection\'s tracing, invariance under crate loading order, and name clashes.',
+    'text': 'Static rule instances over the MIR and HIR tables of crux_cli::codegen: rustdoc ids are only compared for equality or hashed and the node types have no ordering (invariance under renumbering for code of this shape); every Indexed index is the position in the declared, non-skipped member list; every helper sorts its aggregated tuples or keys them by index; outputs are BTreeMaps; the synthetic Range container is derived from a full scan of the field relation and the crate worklist is re-read after every processed crate (two structural parts of closedness); the thorough tier compares the vendored rename-rule table and Format declarations with the pinned serde_derive / serde-reflection sources as parsed tables. NOT decided: closedness in general (input dependent), agreement with serde-reflection\'s tracing, invariance under crate loading order, and name clashes.',
     'design_ref': 'DESIGN.md §4 C20',
 }
 
